@@ -14,6 +14,9 @@ package config
 //@   ensures err == nil ==> calls("loop#5") == 1
 //@   at call StructTag).Lookup#1 assert a1 == "mapstructure"
 //@   at call StructTag).Lookup#2 assert a1 == "repeatable"
+// a field gets an annotation target only from ITS OWN "<Name>Annotation" companion: without one, the target is
+// the zero Value (a stale target from an earlier field would make `policy: fixed(0)` an annotation error)
+//@   at call StructTag).Lookup#2 assert !annotatable ==> annotation == zero("reflect.Value")
 //@   at call StructTag).Lookup#3 assert a1 == "default"
 //@   at call StructTag).Lookup#4 assert a1 == "required"
 
@@ -82,3 +85,20 @@ package config
 //@   at call mergeItems#1 assert a1 == items && a2 == sec.Items && ok
 //@   loop 1
 //@     exit $idx == len(sections)
+
+// C17 (every included file is read): all matches of every include pattern are looked at - a match that is not a
+// *.dae file or is a directory is skipped, it does not end the expansion - and every remaining one is kept, in
+// glob order.
+//@ func unsqueezeEntries
+//@   anchorsonly
+//@   nonilcheck
+//@   dyncalls noeffect
+//@   modifies *
+//@   at call filepath.Glob#1 assert a0 == patternEntries[$idx]
+//@   at call strings.HasSuffix#1 assert a0 == files[$idx] && a1 == ".dae"
+//@   at call os.Stat#1 assert a0 == file
+//@   at call builtin:append#1 assert a0 == unsqueezed && a1[0] == file
+//@   loop 1
+//@     exit $idx == len(patternEntries)
+//@   loop 2
+//@     exit $idx == len(files)
